@@ -116,7 +116,23 @@ func (sc *sysScenario) askClose(q *sysQRun) {
 func runSysScenario(c *Ctx, fixed bool, kind string) (term string, desc map[string]any, key string, nontrivial bool) {
 	maxQC := []int{1, 2, 3, 8}[c.intn(4)]
 	w := buildWorld(c, maxQC)
-	defer w.stop(c)
+	lifecycle := ""
+	if kind == "lifecycle" {
+		// queries do not depend on the ingest lifecycle: a never-started engine over the same stores, or the
+		// engine after Stop, must answer exactly like the running one
+		if c.chance(0.5) {
+			lifecycle = "never-started"
+			w.stop(c)
+			eng2, err := bs.NewBloomSearchEngine(w.cfg, w.meta, w.store)
+			must(err)
+			w.eng = eng2
+		} else {
+			lifecycle = "stopped"
+			w.stop(c)
+		}
+	} else {
+		defer w.stop(c)
+	}
 	sc := &sysScenario{c: c, w: w, iterAt: -1, mainGid: curGoroutineID()}
 	nq := 1
 	if c.chance(0.45) {
@@ -195,6 +211,9 @@ func runSysScenario(c *Ctx, fixed bool, kind string) (term string, desc map[stri
 			p.mode, p.point = "cancelPause", "res.next.wait"
 			p.twoClose = false
 		}
+		if kind == "lifecycle" && c.chance(0.6) {
+			p.mode = "drain"
+		}
 		if p.mode == "cancelIter" {
 			if nq > 1 || sc.iterAt >= 0 {
 				p.mode = "cancelAt"
@@ -211,7 +230,7 @@ func runSysScenario(c *Ctx, fixed bool, kind string) (term string, desc map[stri
 	}
 	sc.plan = strings.Join(plans, " | ")
 	if kind != "random" {
-		sc.plan = kind + ": " + sc.plan
+		sc.plan = kind + lifecycle + ": " + sc.plan
 	}
 
 	// MetaStore pause (cancel during iteration)
@@ -477,6 +496,35 @@ func runSysScenario(c *Ctx, fixed bool, kind string) (term string, desc map[stri
 			c.violation("q-err-cancel-missed", fmt.Sprintf("query %d: context cancelled before Query, Err = %s", q.idx, f.err.kind), info)
 		}
 		c.dist("sys_err", f.err.kind)
+		if (q.plan.mode == "drain" || q.plan.mode == "slow") && injected.Load() == 0 && sc.iterAt < 0 && !q.cancelled.Load() {
+			// undisturbed: exactly the matching rows of the blocks the prefilter keeps, each once
+			want := map[int64]int{}
+			for fi := range w.files {
+				for _, b := range w.queryBlocks(&w.files[fi], q.plan.sq) {
+					for _, r := range b.rows {
+						if q.plan.sq.match(r) {
+							want[r.id]++
+						}
+					}
+				}
+			}
+			got := map[int64]int{}
+			for _, id := range q.returned {
+				got[id]++
+			}
+			same := len(got) == len(want)
+			for k, v := range want {
+				if got[k] != v {
+					same = false
+				}
+			}
+			if !same {
+				c.violation("q-rows", fmt.Sprintf("query %d (%s): undisturbed query returned %d distinct rows, the stored matching rows are %d", q.idx, lifecycle, len(got), len(want)), info)
+			}
+			if f.stats.RowsMatched != int64(len(q.returned)) {
+				c.violation("q-rows-matched", fmt.Sprintf("query %d: RowsMatched %d, rows returned %d", q.idx, f.stats.RowsMatched, len(q.returned)), info)
+			}
+		}
 	}
 
 	// ---- translate
